@@ -269,7 +269,7 @@ def rule_listings(chk, rid):
         U(comps[0].generators[0].ifs[0]) in ("d.name != self.METADATA", f"{U(comps[0].generators[0].target)}.name != self.METADATA")
     chk.ob(rid, f"{fs.qual}.listdir", ok, "filter is exactly `name != METADATA`", ld, mod, key="filter")
     ks = fs.methods["keys"]
-    ys = [n for n in body_walk(ks) if isinstance(n, ast.Yield)]
+    ys = [n for n in body_walk(ks) if isinstance(n, (ast.Yield, ast.YieldFrom))]
     ok = any(call_tail(c) == "listdir" for c in calls_in(ks)) and any(call_tail(c) == "keys" and call_recv(c) == "self" for c in calls_in(ks)) and len(ys) == 2
     chk.ob(rid, f"{fs.qual}.keys", ok, "keys = pre-order recursion over listdir (one yield for the key, one for the recursion)", ks, mod, key="recursion")
 
